@@ -2,12 +2,15 @@
 //! and a recording sink (bytes rdest writes).  `read_buf` hands over a *nondeterministic*
 //! number (1..=available) of the scripted bytes, so TCP segmentation is a symbolic variable.
 use std::cell::RefCell;
-use std::io;
+use crate::io;
 use std::net::SocketAddr;
 use std::rc::Rc;
 
 pub struct StreamState {
     pub input: Vec<u8>,
+    /// Only `input[..limit]` is ever delivered (lets harnesses use a symbolic stream length
+    /// without a symbolic-size allocation).
+    pub limit: usize,
     pub pos: usize,
     /// After the script is exhausted: `true` = peer closed (read returns 0), `false` = Pending.
     pub eof: bool,
@@ -19,6 +22,8 @@ pub struct StreamState {
     /// If set, each read delivers exactly the next listed chunk size (clamped), instead of a
     /// nondeterministic one.  Used by the differential segmentation harnesses.
     pub chunks: Option<Vec<usize>>,
+    /// If set, a read delivers everything that is left in one piece.
+    pub deliver_all: bool,
     pub reads: usize,
     pub writes: usize,
 }
@@ -35,14 +40,23 @@ pub struct TcpStream {
 impl TcpStream {
     /// Model-only constructor.
     pub fn scripted(input: Vec<u8>, eof: bool) -> (TcpStream, StreamHandle) {
+        let limit = input.len();
+        TcpStream::scripted_prefix(input, limit, eof)
+    }
+
+    /// Model-only constructor: the peer sends `input[..limit]`.
+    pub fn scripted_prefix(input: Vec<u8>, limit: usize, eof: bool) -> (TcpStream, StreamHandle) {
+        assert!(limit <= input.len());
         let state = Rc::new(RefCell::new(StreamState {
             input,
+            limit,
             pos: 0,
             eof,
             read_error: false,
             write_error: false,
             sink: Vec::new(),
             chunks: None,
+            deliver_all: false,
             reads: 0,
             writes: 0,
         }));
@@ -84,13 +98,24 @@ impl StreamHandle {
         self.state.borrow().pos
     }
     pub fn push_input(&self, bytes: &[u8]) {
-        self.state.borrow_mut().input.extend_from_slice(bytes);
+        let mut st = self.state.borrow_mut();
+        let limit = st.limit;
+        st.input.truncate(limit);
+        st.input.extend_from_slice(bytes);
+        st.limit = st.input.len();
     }
     pub fn set_eof(&self, eof: bool) {
         self.state.borrow_mut().eof = eof;
     }
     pub fn set_chunks(&self, chunks: Vec<usize>) {
         self.state.borrow_mut().chunks = Some(chunks);
+    }
+    pub fn set_deliver_all(&self, v: bool) {
+        self.state.borrow_mut().deliver_all = v;
+    }
+    /// Model-only: the peer already sent `input[..pos]` (consumed elsewhere by the harness).
+    pub fn set_pos(&self, pos: usize) {
+        self.state.borrow_mut().pos = pos;
     }
     pub fn set_write_error(&self, v: bool) {
         self.state.borrow_mut().write_error = v;
